@@ -217,20 +217,12 @@ structure Gap where
 
 /-- Reproduced on the real code by `harness/c20_genesis_test.go` (witness and patch per finding id: notes/C20.md). -/
 def knownGaps : List Gap := [
-  -- G01 (D11) GetAllNetFeeCollectedData never unmarshals the iterator value
-  ⟨"G01", "import", "collector", "NetFeeCollectedDataPrefix"⟩,
+  -- (G01 net-fee export, G03 auctionsV2 counters, G07 lend-auction import: repaired in the source — 0ab45c0, 2741fd2, a0dfa35)
   -- G02 collector InitGenesis returns silently at the first lookup record its setter rejects (secondary asset not a genesis
   --     token of the app — the run-time path accepts that): the rest of the module is not imported
   ⟨"G02", "abort", "collector", "AddCollectorLookupKey"⟩,
   ⟨"G02", "abort", "collector", "AppIDToAuctionMappingPrefix"⟩,
   ⟨"G02", "abort", "collector", "CollectorForDenomKeyPrefix"⟩,
-  -- G03 auctionsV2 InitGenesis resets the exported auction / bid id counters to zero
-  ⟨"G03", "import", "auctionsV2", "AuctionIDKey"⟩,
-  ⟨"G03", "import", "auctionsV2", "UserBidIDKey"⟩,
-  ⟨"G03", "counter", "auctionsV2", "AuctionIDKey.zero"⟩,
-  ⟨"G03", "counter", "auctionsV2", "UserBidIDKey.zero"⟩,
-  ⟨"G03", "field", "auctionsV2", "AuctionId"⟩,
-  ⟨"G03", "field", "auctionsV2", "UserBiddingID"⟩,
   -- G04 auctionsV2 bids, limit bids, their indexes, id counter, histories and statistics are not exported
   ⟨"G04", "store", "auctionsV2", "UserBidKeyPrefix"⟩,
   ⟨"G04", "store", "auctionsV2", "UserLimitBidMappingKeyPrefix"⟩,
@@ -254,17 +246,14 @@ def knownGaps : List Gap := [
   ⟨"G06", "counter", "lend", "BorrowCounterIDPrefix.lastId"⟩,
   ⟨"G06", "counter", "liquidation", "LockedVaultIDKey.count"⟩,
   ⟨"G06", "counter", "auction", "AuctionIDKey.lastId"⟩,
-  -- G07 auction (first generation): bids and histories not exported; the exported lend auctions are never imported —
-  --     InitGenesis writes the vault dutch auctions under the lend-auction prefix instead
+  ⟨"G06", "counter", "auction", "LendAuctionIDKey.lastId"⟩,
+  -- G07 auction (first generation): bids and histories not exported (the swapped lend-auction import was repaired, a0dfa35)
   ⟨"G07", "store", "auction", "UserKeyPrefix"⟩,
   ⟨"G07", "store", "auction", "LendUserKeyPrefix"⟩,
   ⟨"G07", "store", "auction", "HistoryAuctionKeyPrefix"⟩,
   ⟨"G07", "store", "auction", "HistoryUserKeyPrefix"⟩,
   ⟨"G07", "store", "auction", "LendHistoryAuctionKeyPrefix"⟩,
   ⟨"G07", "store", "auction", "LendHistoryUserKeyPrefix"⟩,
-  ⟨"G07", "import", "auction", "LendAuctionKeyPrefix"⟩,
-  ⟨"G07", "counter", "auction", "LendAuctionIDKey.lastId"⟩,
-  ⟨"G07", "field", "auction", "DutchLendAuction"⟩,
   -- G08 stable-mint reward records
   ⟨"G08", "store", "vault", "StableVaultRewardsKeyPrefix"⟩,
   -- G09 locker id counter
